@@ -53,6 +53,10 @@ type c19Case struct {
 	// AlsoDep: the messages-only dependency file is named for generation too (protoc dir/*.proto), before
 	// ("first") or after ("last") the file under test; it has no services, so it adds no output
 	AlsoDep string `json:",omitempty"`
+	// Twin: a second file with services is named for generation in the same request ("first" / "last"): it lives in
+	// another Go package (another import path) that happens to have the same package name, and declares a service
+	// with the same name as the first service of the file under test. Each file gets its own complete output.
+	Twin string `json:",omitempty"`
 }
 
 var (
@@ -157,8 +161,9 @@ func c19DepProto() *descriptorpb.FileDescriptorProto {
 
 func (c *c19Case) fileProto() *descriptorpb.FileDescriptorProto {
 	fd := &descriptorpb.FileDescriptorProto{Name: proto.String(c.FileName), Syntax: proto.String("proto3"),
-		Dependency:  []string{c19DepFile, "google/protobuf/empty.proto"},
-		MessageType: []*descriptorpb.DescriptorProto{{Name: proto.String("Req")}, {Name: proto.String("Resp")}},
+		Dependency: []string{c19DepFile, "google/protobuf/empty.proto"},
+		// (Empty: a message of the file's own that shares its simple name with google.protobuf.Empty)
+		MessageType: []*descriptorpb.DescriptorProto{{Name: proto.String("Req")}, {Name: proto.String("Resp")}, {Name: proto.String("Empty")}},
 	}
 	if c.Package != "" {
 		fd.Package = proto.String(c.Package)
@@ -172,6 +177,8 @@ func (c *c19Case) fileProto() *descriptorpb.FileDescriptorProto {
 			return proto.String(".dep.pkg.Shared")
 		case "empty":
 			return proto.String(".google.protobuf.Empty")
+		case "localempty":
+			local = "Empty"
 		}
 		if c.Package == "" {
 			return proto.String("." + local)
@@ -496,6 +503,8 @@ func c19TypeCheck(c c19Case, src, ownPath, ownName, depPath, depName string, leg
 			return "*deppkg.Shared"
 		case "empty":
 			return "*emptypb.Empty"
+		case "localempty":
+			return "*Empty"
 		}
 		return "*" + local
 	}
@@ -504,7 +513,7 @@ func c19TypeCheck(c c19Case, src, ownPath, ownName, depPath, depName string, leg
 	if !depLocal {
 		fmt.Fprintf(&b, "\tdeppkg %q\n", depPath)
 	}
-	b.WriteString(")\n\nvar _ context.Context\nvar _ *emptypb.Empty\n\ntype Req struct{}\ntype Resp struct{}\n")
+	b.WriteString(")\n\nvar _ context.Context\nvar _ *emptypb.Empty\n\ntype Req struct{}\ntype Resp struct{}\ntype Empty struct{}\n")
 	if depLocal {
 		b.WriteString("type Shared struct{}\n")
 	} else {
@@ -599,12 +608,34 @@ func propC19(c c19Case) *Outcome {
 		FileToGenerate: []string{c.FileName},
 		ProtoFile:      []*descriptorpb.FileDescriptorProto{c19DepProto(), protodesc.ToFileDescriptorProto(emptypb.File_google_protobuf_empty_proto), c.fileProto()},
 	}
+	twinSvc := ""
+	if c.Twin != "" && len(c.Services) > 0 && strings.HasPrefix(c.GoPackage, "example.com/") {
+		// same package name, other import path: <dir>/zz/<base>[;name]
+		gp, name := c.GoPackage, ""
+		if i := strings.IndexByte(gp, ';'); i >= 0 {
+			gp, name = gp[:i], gp[i:]
+		}
+		twinGo := gp[:strings.LastIndexByte(gp, '/')] + "/zz" + gp[strings.LastIndexByte(gp, '/'):] + name
+		twinSvc = c.Services[0].Name
+		tfd := &descriptorpb.FileDescriptorProto{Name: proto.String("other/twin.proto"), Package: proto.String("twin.pkg"), Syntax: proto.String("proto3"),
+			Options:     &descriptorpb.FileOptions{GoPackage: proto.String(twinGo)},
+			MessageType: []*descriptorpb.DescriptorProto{{Name: proto.String("Req")}, {Name: proto.String("Resp")}},
+			Service: []*descriptorpb.ServiceDescriptorProto{{Name: proto.String(twinSvc), Method: []*descriptorpb.MethodDescriptorProto{
+				{Name: proto.String("Ping"), InputType: proto.String(".twin.pkg.Req"), OutputType: proto.String(".twin.pkg.Resp")}}}}}
+		req.ProtoFile = append(req.ProtoFile, tfd)
+		if c.Twin == "first" {
+			req.FileToGenerate = []string{"other/twin.proto", c.FileName}
+		} else {
+			req.FileToGenerate = []string{c.FileName, "other/twin.proto"}
+		}
+		o.class("second-file-with-a-namesake-service-in-a-namesake-package")
+	}
 	switch c.AlsoDep {
 	case "first":
-		req.FileToGenerate = []string{c19DepFile, c.FileName}
+		req.FileToGenerate = append([]string{c19DepFile}, req.FileToGenerate...)
 		o.class("several-files-to-generate")
 	case "last":
-		req.FileToGenerate = []string{c.FileName, c19DepFile}
+		req.FileToGenerate = append(req.FileToGenerate, c19DepFile)
 		o.class("several-files-to-generate")
 	}
 	if len(c.Params) > 0 {
@@ -632,6 +663,26 @@ func propC19(c c19Case) *Outcome {
 		} else {
 			return o.failf("unexpected output file %q", f.GetName())
 		}
+	}
+	if twinSvc != "" {
+		// the other file's output: there, and complete
+		var rest []*pluginpb.CodeGeneratorResponse_File
+		found := false
+		for _, f := range outs {
+			if filepath.Base(f.GetName()) == "twin.pb.grpchan.go" {
+				found = true
+				if want := "func RegisterHandler" + camelCase(twinSvc) + "("; !strings.Contains(f.GetContent(), want) {
+					o.Observed = f.GetContent()
+					return o.failf("two files with services in one request (packages of the same name, different import paths, both declaring service %q): the output for other/twin.proto lacks %q", twinSvc, want)
+				}
+				continue
+			}
+			rest = append(rest, f)
+		}
+		if !found {
+			return o.failf("two files with services in one request: no output for other/twin.proto (outputs: %d)", len(outs))
+		}
+		outs = rest
 	}
 	if len(c.Services) == 0 {
 		if len(outs) != 0 {
@@ -842,7 +893,7 @@ func genC19(t *rapid.T) c19Case {
 		nm := rapid.IntRange(0, 8).Draw(t, "nmethods")
 		names := rapid.Permutation(c19Names).Draw(t, "mnames")
 		for j := 0; j < nm; j++ {
-			m := c19Method{Name: names[j], In: rapid.SampledFrom([]string{"local", "local", "dep", "empty"}).Draw(t, "in"), Out: rapid.SampledFrom([]string{"local", "local", "dep", "empty"}).Draw(t, "out")}
+			m := c19Method{Name: names[j], In: rapid.SampledFrom([]string{"local", "local", "dep", "empty", "localempty"}).Draw(t, "in"), Out: rapid.SampledFrom([]string{"local", "local", "dep", "empty", "localempty"}).Draw(t, "out")}
 			switch rapid.IntRange(0, 5).Draw(t, "mkind") {
 			case 0, 1, 2:
 			case 3:
@@ -867,6 +918,7 @@ func genC19(t *rapid.T) c19Case {
 		c.Services = append(c.Services, s)
 	}
 	c.AlsoDep = rapid.SampledFrom([]string{"", "", "first", "last"}).Draw(t, "alsodep")
+	c.Twin = rapid.SampledFrom([]string{"", "", "", "first", "last"}).Draw(t, "twin")
 	np := rapid.IntRange(0, 4).Draw(t, "nparams")
 	pool := []string{"legacy_stubs", "legacy_stubs", "legacy_stubs=true", "legacy_stubs=on", "legacy_stubs=YES", "legacy_stubs=1", "legacy_stubs=false", "legacy_stubs=0", "legacy_desc_names", "legacy_desc_names=true", "legacy_desc_names=no",
 		"debug", "debug=off", "paths=import", "paths=source_relative", "module=example.com/mod", "module=example.com/foo", "import_path=example.com/override", "import_path=example.com/override/v2;ovr", "Mdep/dep.proto=example.com/other/dep", "Mdep/dep.proto=example.com/x/grpc", "Mdep/dep.proto=example.com/x/context", "Mdep/dep.proto=example.com/x/emptypb", "Mdep/dep.proto=example.com/x/grpchan", "Mdep/dep.proto=example.com/y/v1;bar", "Msvc.proto=example.com/m/svc;svcpb", "Ma/b/svc.proto=example.com/mod/ab", "Mx_y/my_api.proto=example.com/m/api;apipb",
@@ -890,9 +942,9 @@ func genC19(t *rapid.T) c19Case {
 
 func init() { registerReplay("C19", propC19) }
 
-const c19Rule = "rapid-generated FileDescriptorProtos (package empty/nested, four go_package forms, 0..3 services, 0..8 methods of the four kinds in any interleaving, snake_case/CamelCase/digit/underscore names, methods named like their service, a prefix of it or a package component, local/imported/well-known request and response types with dependency files) x parameter lists (legacy_stubs, legacy_desc_names, debug, paths, module, import_path, M mappings, every accepted boolean spelling, and the documented invalid forms) fed as CodeGeneratorRequest to the plugin binary built from the working tree; " +
+const c19Rule = "rapid-generated FileDescriptorProtos (package empty/nested, four go_package forms, 0..3 services, 0..8 methods of the four kinds in any interleaving, snake_case/CamelCase/digit/underscore names, methods named like their service, a prefix of it or a package component, local/imported/well-known request and response types (also a local message called Empty next to google.protobuf.Empty) with dependency files) x parameter lists (legacy_stubs, legacy_desc_names, debug, paths, module, import_path, M mappings, every accepted boolean spelling, and the documented invalid forms) fed as CodeGeneratorRequest to the plugin binary built from the working tree; " +
 	"oracle: error iff the parameters are invalid by the documented grammar; one *.pb.grpchan.go iff the file has services; output parses (go/parser) and is a go/format fixed point; AST model: RegisterHandler<Svc> calls reg.RegisterService(&<desc var per legacy_desc_names>, srv); with legacy_stubs every method has exactly one stub calling Invoke / NewStream with path /<full service>/<method>, &<desc>.Streams[rank among the service's streaming methods], SendMsg+CloseSend iff server-streaming only; without legacy_stubs no client types; placement model: package clause and output path are those of the Go package holding the file's own service descriptions (M mapping for the file > import_path > go_package; module prefix trimmed; paths=source_relative), imported message packages are imported under their M mapping, the file never imports itself; " +
-	"also generated since the seeded rounds: M mapping of the generated file with and without import_path (drawn deliberately), the messages-only dependency file named for generation before/after the file under test, dependency packages whose Go name collides with another import (grpc, context, emptypb, grpchan) or with the file's own package; the emitted file is type-checked (go/types) next to companion declarations written the way protoc-gen-go/-go-grpc write them; " +
+	"also generated since the seeded rounds: M mapping of the generated file with and without import_path (drawn deliberately), the messages-only dependency file named for generation before/after the file under test, a second file with a namesake service in a namesake Go package (other import path) generated in the same request, dependency packages whose Go name collides with another import (grpc, context, emptypb, grpchan) or with the file's own package; the emitted file is type-checked (go/types) next to companion declarations written the way protoc-gen-go/-go-grpc write them; " +
 	"plus byte-exact regeneration of grpchantesting/test.pb.grpchan.go from the compiled-in descriptors; non-trivial = streaming methods interleaved with unary ones, >=2 services, invalid parameters, or regeneration; distinct by case hash"
 
 func TestC19(t *testing.T) {
